@@ -52,6 +52,67 @@ type Schema struct {
 	Vals    *Schema  // map values
 	Ints    []int64  // enum_int values
 	Strs    []string // enum_string values (token ids)
+	// object
+	ID     string
+	Props  []*Prop
+	Layout string // "map" or a catalogue layout id
+	// oneof
+	Disc    string // "string" | "int"
+	Field   string
+	Inlined bool
+	Members []Member
+	// scope
+	Root    string
+	Objects []*Schema
+}
+
+// Prop is one property of an object (NewPropertySchema + Disable + TreatEmptyAsDefaultValue).
+type Prop struct {
+	Name           string   `json:"name"`
+	Type           *Schema  `json:"type"`
+	Required       bool     `json:"required"`
+	RequiredIf     []string `json:"required_if"`
+	RequiredIfNot  []string `json:"required_if_not"`
+	Conflicts      []string `json:"conflicts"`
+	Default        OptValue `json:"default"`
+	Disabled       bool     `json:"disabled"`
+	EmptyIsDefault bool     `json:"empty_is_default"`
+}
+
+func (p *Prop) MarshalJSON() ([]byte, error) {
+	nn := func(x []string) []string {
+		if x == nil {
+			return []string{}
+		}
+		return x
+	}
+	return json.Marshal(map[string]any{"name": p.Name, "type": p.Type, "required": p.Required, "required_if": nn(p.RequiredIf),
+		"required_if_not": nn(p.RequiredIfNot), "conflicts": nn(p.Conflicts), "default": p.Default, "disabled": p.Disabled,
+		"empty_is_default": p.EmptyIsDefault})
+}
+
+// Member is one member of a one-of: the discriminator value (int64 or token id) and the object / ref.
+type Member struct {
+	KeyInt int64
+	KeyStr string
+	S      *Schema
+}
+
+// OptValue is Opt(Value).
+type OptValue struct {
+	Some bool   `json:"some"`
+	V    *Value `json:"v,omitempty"`
+}
+
+func (o OptValue) MarshalJSON() ([]byte, error) {
+	if !o.Some || o.V == nil {
+		return []byte(`{"some":false}`), nil
+	}
+	b, err := o.V.MarshalJSON()
+	if err != nil {
+		return nil, err
+	}
+	return []byte(`{"some":true,"v":` + string(b) + `}`), nil
 }
 
 type rawSchema struct {
@@ -64,6 +125,15 @@ type rawSchema struct {
 	Items   *Schema         `json:"items,omitempty"`
 	Keys    *Schema         `json:"keys,omitempty"`
 	Values  json.RawMessage `json:"values,omitempty"`
+	ID      string          `json:"id,omitempty"`
+	Props   []*Prop         `json:"props,omitempty"`
+	Layout  string          `json:"layout,omitempty"`
+	Disc    string          `json:"disc,omitempty"`
+	Field   string          `json:"field,omitempty"`
+	Inlined bool            `json:"inlined,omitempty"`
+	Members [][]json.RawMessage `json:"members,omitempty"`
+	Root    string          `json:"root,omitempty"`
+	Objects []*Schema       `json:"objects,omitempty"`
 }
 
 func (s *Schema) UnmarshalJSON(b []byte) error {
@@ -88,7 +158,31 @@ func (s *Schema) UnmarshalJSON(b []byte) error {
 		s.Typed = *r.Typed
 	}
 	s.Items, s.Keys = r.Items, r.Keys
+	s.ID, s.Props, s.Layout = r.ID, r.Props, r.Layout
+	s.Disc, s.Field, s.Inlined = r.Disc, r.Field, r.Inlined
+	s.Root, s.Objects = r.Root, r.Objects
 	switch s.Kind {
+	case "object", "ref", "scope", "refcut":
+		return nil
+	case "oneof":
+		for _, m := range r.Members {
+			if len(m) != 2 {
+				return fmt.Errorf("malformed one-of member")
+			}
+			mem := Member{S: &Schema{}}
+			if s.Disc == "int" {
+				if err := json.Unmarshal(m[0], &mem.KeyInt); err != nil {
+					return err
+				}
+			} else if err := json.Unmarshal(m[0], &mem.KeyStr); err != nil {
+				return err
+			}
+			if err := json.Unmarshal(m[1], mem.S); err != nil {
+				return err
+			}
+			s.Members = append(s.Members, mem)
+		}
+		return nil
 	case "enum_int":
 		s.Ints = []int64{}
 		if len(r.Values) > 0 {
@@ -132,6 +226,26 @@ func (s *Schema) MarshalJSON() ([]byte, error) {
 		m["items"], m["min"], m["max"], m["typed"] = s.Items, s.Min, s.Max, s.Typed
 	case "map":
 		m["keys"], m["values"], m["min"], m["max"], m["typed"] = s.Keys, s.Vals, s.Min, s.Max, s.Typed
+	case "object":
+		props := s.Props
+		if props == nil {
+			props = []*Prop{}
+		}
+		m["id"], m["props"], m["layout"], m["typed"] = s.ID, props, s.Layout, s.Typed
+	case "oneof":
+		mem := [][]any{}
+		for _, x := range s.Members {
+			if s.Disc == "int" {
+				mem = append(mem, []any{x.KeyInt, x.S})
+			} else {
+				mem = append(mem, []any{x.KeyStr, x.S})
+			}
+		}
+		m["disc"], m["field"], m["inlined"], m["members"] = s.Disc, s.Field, s.Inlined, mem
+	case "ref":
+		m["id"] = s.ID
+	case "scope":
+		m["root"], m["objects"] = s.Root, s.Objects
 	}
 	return json.Marshal(m)
 }
@@ -148,19 +262,48 @@ type Value struct {
 	S     string      // str / re: token id; fspecial: nan|+inf|-inf; junk: class
 	List  []*Value    // list
 	Pairs [][2]*Value // map
+	T      string        // struct: layout id
+	Fields []StructField // struct: one per declared property
+}
+
+// StructField is one <<property, Opt(value)>> pair of a struct value.
+type StructField struct {
+	Name string
+	Val  OptValue
 }
 
 func (v *Value) UnmarshalJSON(b []byte) error {
 	var r struct {
 		K   string          `json:"k"`
 		Rep string          `json:"rep"`
+		T   string          `json:"t"`
 		V   json.RawMessage `json:"v"`
 	}
 	if err := json.Unmarshal(b, &r); err != nil {
 		return err
 	}
-	v.K, v.Rep = r.K, r.Rep
+	v.K, v.Rep, v.T = r.K, r.Rep, r.T
 	switch r.K {
+	case "struct":
+		var rows [][]json.RawMessage
+		if err := json.Unmarshal(r.V, &rows); err != nil {
+			return err
+		}
+		v.Fields = []StructField{}
+		for _, row := range rows {
+			if len(row) != 2 {
+				return fmt.Errorf("malformed struct field")
+			}
+			var f StructField
+			if err := json.Unmarshal(row[0], &f.Name); err != nil {
+				return err
+			}
+			if err := json.Unmarshal(row[1], &f.Val); err != nil {
+				return err
+			}
+			v.Fields = append(v.Fields, f)
+		}
+		return nil
 	case "nil":
 		return nil
 	case "bool":
@@ -192,6 +335,21 @@ func (v *Value) MarshalJSON() ([]byte, error) {
 		return []byte(fmt.Sprintf(`{"k":%s,"rep":%s,"v":%s}`, q(v.K), q(v.Rep), q(v.S))), nil
 	case "re", "junk":
 		return []byte(fmt.Sprintf(`{"k":%s,"v":%s}`, q(v.K), q(v.S))), nil
+	case "struct":
+		var sb strings.Builder
+		sb.WriteString(fmt.Sprintf(`{"k":"struct","t":%s,"v":[`, q(v.T)))
+		for i, f := range v.Fields {
+			if i > 0 {
+				sb.WriteByte(',')
+			}
+			ob, err := f.Val.MarshalJSON()
+			if err != nil {
+				return nil, err
+			}
+			sb.WriteString("[" + q(f.Name) + "," + string(ob) + "]")
+		}
+		sb.WriteString("]}")
+		return []byte(sb.String()), nil
 	case "list":
 		var sb strings.Builder
 		sb.WriteString(fmt.Sprintf(`{"k":"list","rep":%s,"v":[`, q(v.Rep)))
@@ -249,6 +407,16 @@ func (v *Value) Canon() string {
 		}
 		sort.Strings(parts)
 		return "{" + strings.Join(parts, ",") + "}"
+	case "struct":
+		parts := make([]string, len(v.Fields))
+		for i, f := range v.Fields {
+			if f.Val.Some {
+				parts[i] = f.Name + "=" + f.Val.V.Canon()
+			} else {
+				parts[i] = f.Name + "=<absent>"
+			}
+		}
+		return "struct:" + v.T + "{" + strings.Join(parts, ",") + "}"
 	}
 	b, _ := v.MarshalJSON()
 	return string(b)
@@ -265,6 +433,8 @@ func (v *Value) Class() string {
 		return "junk:" + v.S
 	case "re":
 		return "re"
+	case "struct":
+		return "struct:" + v.T
 	case "str":
 		if t, ok := TokenByID(v.S); ok && t.SymKind == "" {
 			if a, err := ComputeAttr(t.Text); err == nil && a.Flt.OK && a.Flt.Cls != "num" {
@@ -325,7 +495,7 @@ func (v *Value) Decodable() bool {
 				return false
 			}
 		}
-	case "re":
+	case "re", "struct":
 		return false
 	case "junk":
 		return v.S == "tag" || v.S == "bigint" || v.S == "time"
@@ -349,6 +519,16 @@ func (v *Value) Key() string {
 			set[p[0].Class()+"=>"+p[1].Class()] = true
 		}
 		return fmt.Sprintf("map:%s/%d%v", v.Rep, len(v.Pairs), sortedKeys(set))
+	case "struct":
+		parts := []string{}
+		for _, f := range v.Fields {
+			if f.Val.Some {
+				parts = append(parts, f.Name+"="+f.Val.V.Key())
+			} else {
+				parts = append(parts, f.Name+"=-")
+			}
+		}
+		return "struct:" + v.T + "{" + strings.Join(parts, ",") + "}"
 	case "int":
 		pos := "small"
 		if IsEdge(v.N) {
@@ -389,6 +569,27 @@ func (s *Schema) Shape() string {
 		return "list(" + f(s.Min.Some, "m") + f(s.Max.Some, "M") + f(s.Typed, "t") + ")<" + s.Items.Shape() + ">"
 	case "map":
 		return "map(" + f(s.Min.Some, "m") + f(s.Max.Some, "M") + f(s.Typed, "t") + ")<" + s.Keys.Shape() + "," + s.Vals.Shape() + ">"
+	case "object":
+		parts := []string{}
+		for _, p := range s.Props {
+			parts = append(parts, p.Name+":"+p.Type.Shape()+"["+f(p.Required, "r")+fmt.Sprintf("i%v", p.RequiredIf)+fmt.Sprintf("n%v", p.RequiredIfNot)+
+				fmt.Sprintf("c%v", p.Conflicts)+f(p.Default.Some, "d")+f(p.Disabled, "x")+f(p.EmptyIsDefault, "e")+"]")
+		}
+		return "object:" + s.Layout + f(s.Typed, "t") + "{" + strings.Join(parts, ",") + "}"
+	case "oneof":
+		parts := []string{}
+		for _, m := range s.Members {
+			parts = append(parts, m.S.Shape())
+		}
+		return "oneof:" + s.Disc + f(s.Inlined, "i") + "<" + strings.Join(parts, "|") + ">"
+	case "ref":
+		return "ref:" + s.ID
+	case "scope":
+		parts := []string{}
+		for _, o := range s.Objects {
+			parts = append(parts, o.Shape())
+		}
+		return "scope:" + s.Root + "<" + strings.Join(parts, ";") + ">"
 	}
 	return s.Kind
 }
@@ -404,7 +605,7 @@ func (s *Schema) Trivial() bool {
 		return !s.Min.Some && !s.Max.Some && s.Items.Trivial()
 	case "map":
 		return !s.Min.Some && !s.Max.Some && s.Keys.Trivial() && s.Vals.Trivial()
-	case "enum_int", "enum_string":
+	case "enum_int", "enum_string", "object", "oneof", "scope", "ref":
 		return false
 	}
 	return true
@@ -432,6 +633,12 @@ func (v *Value) HasEdge() bool {
 				return true
 			}
 		}
+	case "struct":
+		for _, f := range v.Fields {
+			if f.Val.Some && f.Val.V.HasEdge() {
+				return true
+			}
+		}
 	}
 	return false
 }
@@ -454,6 +661,24 @@ func (s *Schema) HasEdge() bool {
 		return s.Items.HasEdge()
 	case "map":
 		return s.Keys.HasEdge() || s.Vals.HasEdge()
+	case "object":
+		for _, p := range s.Props {
+			if p.Type.HasEdge() || (p.Default.Some && p.Default.V.HasEdge()) {
+				return true
+			}
+		}
+	case "oneof":
+		for _, m := range s.Members {
+			if m.S.HasEdge() {
+				return true
+			}
+		}
+	case "scope":
+		for _, o := range s.Objects {
+			if o.HasEdge() {
+				return true
+			}
+		}
 	}
 	return false
 }
